@@ -1098,6 +1098,11 @@ class StrategyBase(Node):
 
         The result is a MultiIndex DataFrame.
         """
+        # a tree without securities has no transactions
+        if len(self.securities) == 0:
+            index = pd.MultiIndex.from_arrays([[], []], names=["Date", "Security"])
+            return pd.DataFrame({"price": [], "quantity": []}, index=index, dtype=float)
+
         # get prices for each security in the strategy & create unstacked
         # series
         prc = pd.DataFrame({x.name: x.prices for x in self.securities}).unstack()
